@@ -46,6 +46,11 @@ def seeds_tables():
     for k, v in sorted(res.items()):
         if k.startswith('own/'):
             by = ', '.join(' '.join(x['rules']) or p for p, x in sorted(v.items()) if isinstance(x, dict) and x.get('rc') == 1)
+            broken = sorted(p for p, x in v.items() if isinstance(x, dict) and x.get('rc') not in (0, 1))
+            if k.endswith('.equiv') and (by or broken):
+                by = '**false alarm**: ' + (by + ' ' if by else '') + ('ANALYSIS-BROKEN (exit 2) in %s' % ', '.join(broken) if broken else '') + ' - see 7.6'
+            if v.get('error'):
+                by = 'patch does not apply to the current tree'
             own.append('| %s | %s |' % (k[4:], by or ('silent (expected: behaviour-preserving edit)' if k.endswith('.equiv') else 'MISSED')))
     out.append('\n'.join(own))
     reg = ['| fix commit reverted | reported by |', '|---|---|']
